@@ -321,6 +321,7 @@ pub mod imp {
         });
         op!(v, "move_element_here_at", "local", "", |w| r(w.e("p2el").move_element_here_at(&w.e("ecu1"), 0)));
         op!(v, "move_element_here_at", "same_parent", "", |w| r(w.e("p1el").move_element_here_at(&w.e("ecu2"), 0)));
+        op!(v, "move_element_here_at", "same_parent_front", "", |w| r(w.e("p1el").move_element_here_at(&w.e("sys"), 0)));
         op!(v, "move_element_here_at", "foreign", "", |w| r(w.e("p2el").move_element_here_at(&w.e("ecuq"), 0)));
         op!(v, "move_element_here_at", "self", "", |w| r(w.e("p1el").move_element_here_at(&w.e("p1el"), 0)));
         op!(v, "move_element_here_at", "parent", "", |w| r(w.e("p1el").move_element_here_at(&w.e("p1"), 0)));
@@ -340,6 +341,7 @@ pub mod imp {
         op!(v, "remove_sub_element", "stale_self", "", |w| r(w.e("stale").remove_sub_element(w.e("stale_sn"))));
         op!(v, "remove_sub_element", "foreign", "", |w| r(w.e("p1el").remove_sub_element(w.e("ecuq"))));
         op!(v, "remove_sub_element_kind", "ok", "", |w| r(w.e("p2").remove_sub_element_kind(EN::Elements)));
+        op!(v, "remove_sub_element_kind", "last_kind", "", |w| r(w.e("p1el").remove_sub_element_kind(EN::System)));
         op!(v, "remove_sub_element_kind", "missing", "", |w| r(w.e("p1").remove_sub_element_kind(EN::Category)));
         op!(v, "remove_sub_element_kind", "stale", "", |w| r(w.e("stale").remove_sub_element_kind(EN::ShortName)));
         // ---------------------------------------------------------------- names, character data
@@ -434,6 +436,8 @@ pub mod imp {
         op!(v, "get_sub_element", "byname", "", |w| format!("ok:{}", w.e("p1").get_sub_element(EN::Elements).is_some()));
         // readers of AR-PACKAGES (the parent of the packages that file operations delete) that hold its lock across a scheduling point
         op!(v, "get_sub_element", "pkgs_byname", "", |w| format!("ok:{}", w.e("pkgs").get_sub_element(EN::ArPackage).is_some()));
+        // a kind that is NOT the first child (SYSTEM after two ECU-INSTANCEs): the lookup has to pass the other children first
+        op!(v, "get_sub_element", "last_kind", "", |w| format!("ok:{}", w.e("p1el").get_sub_element(EN::System).is_some()));
         op!(v, "get_sub_element", "at", "", |w| format!("ok:{}", w.e("p1el").get_sub_element_at(1).is_some()));
         op!(v, "get_sub_element", "sub_elements_iter", "", |w| format!("ok:{}", w.e("p1el").sub_elements().count()));
         op!(v, "get_sub_element", "list_valid", "", |w| format!("ok:{}", w.e("p1").list_valid_sub_elements().len()));
